@@ -40,8 +40,15 @@ Definition trim (s : bytes) : bytes := trim_right (trim_left s).
 Fixpoint block_lines (cur : bytes) (s : bytes) : option (list bytes) :=
   match s with
   | [] => match cur with [] => Some [] | _ => None end           (* an unterminated line: refused *)
-  | 13%N :: 10%N :: t => match block_lines [] t with Some ls => Some (rev cur :: ls) | None => None end
-  | b :: t => if N.eqb b 10 then None else block_lines (b :: cur) t
+  | b :: t =>
+      if N.eqb b 13 then
+        match t with
+        | c :: t' => if N.eqb c 10
+                     then match block_lines [] t' with Some ls => Some (rev cur :: ls) | None => None end
+                     else None                                      (* bare CR *)
+        | [] => None
+        end
+      else if N.eqb b 10 then None else block_lines (b :: cur) t
   end.
 
 (* key: value — split at the first ':' *)
@@ -115,10 +122,15 @@ Fixpoint take_token (s : bytes) : bytes * bytes :=
 Fixpoint take_quoted (s : bytes) : option (bytes * bytes) :=
   match s with
   | [] => None
-  | 34%N :: t => Some ([], t)
-  | 92%N :: c :: t => match take_quoted t with Some (a, r) => Some (c :: a, r) | None => None end
-  | b :: t => if N.eqb b 13 || N.eqb b 10 then None
-              else match take_quoted t with Some (a, r) => Some (b :: a, r) | None => None end
+  | b :: t =>
+      if N.eqb b 34 then Some ([], t)
+      else if N.eqb b 92 then
+        match t with
+        | c :: t' => match take_quoted t' with Some (a, r) => Some (c :: a, r) | None => None end
+        | [] => None
+        end
+      else if N.eqb b 13 || N.eqb b 10 then None
+      else match take_quoted t with Some (a, r) => Some (b :: a, r) | None => None end
   end.
 
 Definition lower_bytes (s : bytes) : bytes := map lower_ascii s.
@@ -130,31 +142,32 @@ Fixpoint media_params (fuel : nat) (s : bytes) (acc : pmap) : option pmap :=
   | S f =>
       match trim_left s with
       | [] => Some acc
-      | 59%N :: t =>
-          let '(name, r1) := take_token (trim_left t) in
-          match name, r1 with
-          | [], [] => Some acc                                       (* trailing ';' *)
-          | [], _ => None
-          | _ :: _, 61%N :: r2 =>
-              let key := lower_bytes name in
-              match map_get acc key with
-              | Some _ => None                                       (* duplicate parameter *)
-              | None =>
-                  match r2 with
-                  | 34%N :: q => match take_quoted q with
-                                 | Some (v, r3) => media_params f r3 (acc ++ [(key, v)])
-                                 | None => None
-                                 end
-                  | _ => let '(v, r3) := take_token r2 in
-                         match v with
-                         | [] => None
-                         | _ => media_params f r3 (acc ++ [(key, v)])
-                         end
+      | c0 :: t =>
+          if negb (N.eqb c0 59) then None
+          else
+            let '(name, r1) := take_token (trim_left t) in
+            match name, r1 with
+            | [], [] => Some acc                                     (* trailing ';' *)
+            | [], _ => None
+            | _ :: _, [] => None
+            | _ :: _, c1 :: r2 =>
+                if negb (N.eqb c1 61) then None
+                else
+                  let key := lower_bytes name in
+                  match map_get acc key with
+                  | Some _ => None                                   (* duplicate parameter *)
+                  | None =>
+                      let quoted := match r2 with c2 :: _ => N.eqb c2 34 | [] => false end in
+                      if quoted then
+                        match take_quoted (tl r2) with
+                        | Some (v, r3) => media_params f r3 (acc ++ [(key, v)])
+                        | None => None
+                        end
+                      else
+                        let '(v, r3) := take_token r2 in
+                        if is_empty v then None else media_params f r3 (acc ++ [(key, v)])
                   end
-              end
-          | _, _ => None
-          end
-      | _ => None
+            end
       end
   end.
 
